@@ -49,9 +49,11 @@ Inductive a85_digits : bytes -> bytes -> Prop :=
 | ad_part2 : forall b0 b1, a85_digits [b0; b1] (firstn 3 (group5 (word b0 b1 0 0)))
 | ad_part3 : forall b0 b1 b2, a85_digits [b0; b1; b2] (firstn 4 (group5 (word b0 b1 b2 0))).
 
-(* payload p, encoding e (up to and including the EOD marker `~>`) *)
+(* payload p, encoding e: the characters followed by the EOD marker `~>`, with white space anywhere —
+   between the characters, before the marker, and also BETWEEN the `~` and the `>` of the marker (a line
+   wrapper may break the line there) and after it *)
 Definition a85_enc (p e : bytes) : Prop :=
-  exists digits text, a85_digits p digits /\ interleave digits text /\ e = text ++ [126; 62]%N.
+  exists digits, a85_digits p digits /\ interleave (digits ++ [126; 62]%N) e.
 
 (* the encoder that never uses `z`, no white space: a function, for non-vacuity *)
 Fixpoint a85_encode_plain (fuel : nat) (p : bytes) : bytes :=
